@@ -33,6 +33,7 @@ import (
 	"sync/atomic"
 	"time"
 
+	"github.com/krotik/common/datautil"
 	"github.com/krotik/ecal/engine"
 	"github.com/krotik/ecal/engine/pool"
 	"github.com/krotik/ecal/interpreter"
@@ -521,8 +522,17 @@ func c12Exec(payload string) string {
 	}
 
 	lg := &memLog{}
-	erp := interpreter.NewECALRuntimeProvider("c12", nil, lg)
-	defer erp.Cron.Stop()
+	var erp *interpreter.ECALRuntimeProvider
+	if c12Bare {
+		// cold-start runs create thousands of providers: the same object without the cron thread
+		// NewECALRuntimeProvider starts (nothing in the generated programs uses it)
+		erp = &interpreter.ECALRuntimeProvider{Name: "c12", ImportLocator: &util.MemoryImportLocator{}, Logger: lg,
+			Mutexes: make(map[string]*sync.Mutex), MutexLog: datautil.NewRingBuffer(1024),
+			MutexeOwners: make(map[string]uint64), MutexesMutex: &sync.Mutex{}}
+	} else {
+		erp = interpreter.NewECALRuntimeProvider("c12", nil, lg)
+		defer erp.Cron.Stop()
+	}
 	workers := nSink
 	if workers < 1 {
 		workers = 1
@@ -840,7 +850,11 @@ wait:
 // c12Cold = cold start: `reps` FRESH providers, on each of them `threads` gated threads run their
 // role once — every first use of a name (creation of its mutex, first owner entry) happens under
 // contention. The runs end quiescent, so their traces are concatenated and replayed as one.
+var c12Bare bool
+
 func c12Cold(threads, reps int, seed uint64, roles string) string {
+	c12Bare = true
+	defer func() { c12Bare = false }()
 	var occ, cnt, end [3]int
 	doneA, doneB, term := 0, 0, 0
 	var traces []string
@@ -1119,9 +1133,13 @@ func init() {
 				}
 			}
 			// cold start: every first use of a name under contention, on many fresh providers
-			emit("C", 16, 200, "an()")
-			emit("C", 16, 120, "an(bn())|bn(cn())|cn()")
-			emit("C", 8, 200, "bn()|bn()")
+			for k := 0; k < 6; k++ {
+				emit("C", 16, 300, "an()")
+			}
+			for k := 0; k < 3; k++ {
+				emit("C", 16, 150, "an(bn())|bn(cn())|cn()")
+				emit("C", 8, 300, "bn()|bn()")
+			}
 			g.Count("cold start")
 			// debugger clients: concurrent `inject` commands are independent threads and must exclude
 			// each other in the blocks of the functions they call (while InjectValue evaluates with
